@@ -664,7 +664,7 @@ func writeEvidence(prop, tier string, seed uint64, t *WorkerOut, states map[uint
 		"known_findings_seen":                 known,
 		"extra":                               t.Extra,
 		"warnings":                            warn,
-		"engine":                              engine,
+		"engine":                              engineLabel(prop, engine),
 		"real_code":                           "all of package github.com/mlange-42/ark/ecs, built from /repo's working tree with -tags verif",
 		"stubs":                               "none; seams: Shrink clock-skew hook, lock yield hooks, reach probes",
 		"toolchain":                           runtime.Version(),
@@ -755,4 +755,11 @@ func replayRegen(rp *sim.Replay, path string) int {
 	}
 	fmt.Printf("replay %s: the regenerated run neither crashed nor hung again\n", path)
 	return 0
+}
+
+func engineLabel(prop, engine string) string {
+	if prop == "C11" {
+		return engine + " (world simulator, workers 0-2 of 4) + G (operations inside the mark phase of a collection, worker 3 of 4; evaluations of G: oracle_evaluations[gc.window])"
+	}
+	return engine
 }
